@@ -220,13 +220,13 @@ func beaconJSON(w *mirWorld, roots map[string]bool) ([]*MirOut, error) {
 		return nil, err
 	}
 	want := map[string]string{
-		"Beacon.Marshal":          "return json.Marshal(b)",
-		"Beacon.Unmarshal":        "return json.Unmarshal(buff, b)",
-		"HexBytes.MarshalJSON":    "return json.Marshal(h.String())",
-		"HexBytes.String":         "return hex.EncodeToString(*h)",
-		"HexBytes.UnmarshalJSON":  "var hexString string; if err := json.Unmarshal(data, &hexString); err != nil { return err }; b, err := hex.DecodeString(hexString); if err != nil { return err }; *h = b; return nil",
-		"Beacon.GetRound":         "return b.Round",
-		"Beacon.GetSignature":     "return b.Signature",
+		"Beacon.Marshal":              "return json.Marshal(b)",
+		"Beacon.Unmarshal":            "return json.Unmarshal(buff, b)",
+		"HexBytes.MarshalJSON":        "return json.Marshal(h.String())",
+		"HexBytes.String":             "return hex.EncodeToString(*h)",
+		"HexBytes.UnmarshalJSON":      "var hexString string; if err := json.Unmarshal(data, &hexString); err != nil { return err }; b, err := hex.DecodeString(hexString); if err != nil { return err }; *h = b; return nil",
+		"Beacon.GetRound":             "return b.Round",
+		"Beacon.GetSignature":         "return b.Signature",
 		"Beacon.GetPreviousSignature": "return b.PreviousSig",
 	}
 	for k, body := range want {
@@ -404,3 +404,6 @@ func genMirrors(repo string) (string, error) {
 }
 
 var _ = ast.NewIdent
+
+// MirRoots lists the qualified names of the struct types that have mirrors of their own.
+func MirRoots() map[string]bool { return mirRoots() }
